@@ -1,5 +1,92 @@
 import SuppModel.Drv.Util
+import SuppModel.Proj.Model
+
+/- Driver front-end of the Proj family (C09).  A request carries the variant, the fuel, the initial
+   disk, the clock and the whole history; the reply lists, per request of the history, the answer of
+   the long-lived project (`run`) and the answer of a fresh project on the disk of that moment
+   (`fresh`), plus the decidable hypotheses (`clockOk`, `absDisk`/`Op.isAbs`, no `recursion` in the fresh
+   answers) and the model's own verdict on the history (`transparentOn`). -/
 namespace SuppModel.Drv.Proj
-open Lean SuppModel.Drv
-def handle (_j : Json) : Json := errJson "driver for Proj not built yet"
+open Lean SuppModel.Drv SuppModel.Proj
+
+def natOf (j : Json) : Except String Nat := j.getNat?
+def modOf (j : Json) : Except String Mod := do (← j.getArr?).toList.mapM natOf
+def optNat (j : Json) : Except String (Option Nat) :=
+  match j with | .null => pure none | _ => do pure (some (← natOf j))
+
+def tagOf (a : Array Json) : Except String String :=
+  if h : 0 < a.size then a[0].getStr? else throw "empty tuple"
+
+def itemOf (j : Json) : Except String Item := do
+  let a ← j.getArr?
+  match (← tagOf a), a.size with
+  | "bind", 3 => pure (.bind (← natOf a[1]!) (← natOf a[2]!))
+  | "imp", 2 => pure (.imp (← natOf a[1]!))
+  | "frm", 4 => pure (.frm (← modOf a[1]!) (← natOf a[2]!) (← natOf a[3]!))
+  | "star", 2 => pure (.star (← modOf a[1]!))
+  | "rfrm", 5 => pure (.rfrm (← natOf a[1]!) (← modOf a[2]!) (← natOf a[3]!) (← natOf a[4]!))
+  | "rstar", 3 => pure (.rstar (← natOf a[1]!) (← modOf a[2]!))
+  | t, _ => throw ("bad item " ++ t)
+
+def srcOf (j : Json) : Except String Src := do (← j.getArr?).toList.mapM itemOf
+
+def queryOf (j : Json) : Except String Query := do
+  let a ← j.getArr?
+  match (← tagOf a), a.size with
+  | "names", 3 => pure (.names (← modOf a[1]!) (← optNat a[2]!))
+  | "attr", 4 => pure (.attr (← modOf a[1]!) (← optNat a[2]!) (← natOf a[3]!))
+  | "loc", 4 => pure (.loc (← modOf a[1]!) (← optNat a[2]!) (← natOf a[3]!))
+  | "lint", 3 => pure (.lint (← modOf a[1]!) (← (← a[2]!.getArr?).toList.mapM natOf))
+  | t, _ => throw ("bad query " ++ t)
+
+def opOf (j : Json) : Except String Op := do
+  let a ← j.getArr?
+  match (← tagOf a), a.size with
+  | "write", 3 => pure (.write (← modOf a[1]!) (← srcOf a[2]!))
+  | "touch", 2 => pure (.touch (← modOf a[1]!))
+  | "req", 2 => pure (.request (← queryOf a[1]!))
+  | t, _ => throw ("bad op " ++ t)
+
+def fileOf (j : Json) : Except String (Mod × File) := do
+  let a ← j.getArr?
+  if a.size ≠ 3 then throw "bad file"
+  pure (← modOf a[0]!, ⟨← natOf a[1]!, ← srcOf a[2]!⟩)
+
+def variantOf : String → Except String Variant
+  | "pinned" => pure .pinned
+  | "coarseOnly" => pure .coarseOnly
+  | "current" => pure .current
+  | s => throw ("bad variant " ++ s)
+
+def natsJson (xs : List Nat) : Json := Json.arr (xs.map (fun (n : Nat) => Json.num n)).toArray
+
+def ansJson : Ans → Json
+  | .names xs => Json.mkObj [("names", natsJson xs)]
+  | .payload p => Json.mkObj [("payload", Json.num p)]
+  | .locs ls => Json.mkObj [("locs", Json.arr (ls.map (fun (l : Loc) =>
+      Json.arr #[match l.1 with | none => Json.null | some m => natsJson m, Json.num l.2])).toArray)]
+  | .undefined xs => Json.mkObj [("undefined", natsJson xs)]
+  | .nothing => Json.str "nothing"
+  | .recursion => Json.str "recursion"
+
+def handle (j : Json) : Json :=
+  let r : Except String Json := do
+    let v ← variantOf (← jstr j "variant")
+    let fuel ← jnat j "fuel"
+    let clock ← jnat j "clock"
+    let disk ← (← jarr j "disk").toList.mapM fileOf
+    let ops ← (← jarr j "ops").toList.mapM opOf
+    let tr := run v fuel (World.init disk clock) ops
+    let fr := tr.map (fun r => fresh fuel r.1 r.2.1)
+    pure (Json.mkObj [
+      ("answers", Json.arr (tr.map (fun r => ansJson r.2.2)).toArray),
+      ("fresh", Json.arr (fr.map ansJson).toArray),
+      ("clock_ok", Json.bool (clockOk disk clock)),
+      ("abs_ok", Json.bool (absDisk disk && ops.all Op.isAbs)),
+      ("transparent", Json.bool (transparentOn v fuel disk clock ops)),
+      ("no_recursion", Json.bool (fr.all (· ≠ .recursion)))])
+  match r with
+  | .ok j => j
+  | .error e => errJson e
+
 end SuppModel.Drv.Proj
